@@ -266,7 +266,7 @@ def check():
                 o.inconc("UNCONFIRMED: the solver found a violating path (%s) that the real oal-cli matrix (success, lexical, syntax, import, "
                          "type, evaluation, unwritable target) does not exhibit" % bad[:3])
         elif mism:
-            o.inconc("translator validation failed: real oal-cli misbehaves (%s) although every query is unsat" % mism[:4])
+            o.oracle_only("real oal-cli misbehaves (%s) although every query is unsat" % mism[:4], rdir)
     return o.finish()
 
 
